@@ -81,7 +81,7 @@ struct Ops {
 		uint64_t r = now(); ag[i].online = false; g_log->off[i].push_back({c, r}); g_log->note(strf("a%d.offline", i));
 	}
 	void qs(int i) { uint64_t c = now(); ag[i].ag->quiescent_state(); uint64_t r = now(); g_log->qs[i].push_back({c, r}); g_log->note(strf("a%d.qs", i)); }
-	void barrier(int i) { uint64_t c = now(); ag[i].ag->quiescent_barrier(); uint64_t r = now(); g_log->qb[i].push_back({c, r}); g_log->note(strf("a%d.barrier", i)); }
+	void barrier(int i) { sched::g_unscheduled_spins = 0; uint64_t c = now(); ag[i].ag->quiescent_barrier(); uint64_t r = now(); g_log->qb[i].push_back({c, r}); g_log->note(strf("a%d.barrier", i)); }
 	void await(int i) {
 		Node *n = (Node *)malloc(sizeof(Node)); new (n) Node(); n->id = next_node++; n->agent = i; n->qn.on_grace_period = on_grace;
 		uint64_t c = now();
